@@ -189,12 +189,19 @@ def _scan_artefacts(recipe, reps):
         (d / "r.yml").write_text(text)
         jsonf, txtf, sqlf, mapf = d / "o.json", d / "o.txt", d / "o.sql", d / "map.yml"
         db = d / "o.db"
-        generate_data(str(d / "r.yml"), parent_application=QuietApp(StoppingCriteria("__REPS__", reps)),
-                      output_files=[str(jsonf), str(txtf), str(sqlf)], dburl=f"sqlite:///{db}",
-                      generate_cci_mapping_file=str(mapf))
+        import contextlib
+        from .oracle_random import injected_randbelow
+
+        def draws():     # the same injected draw stream as the capture run (recipes with random_reference)
+            return injected_randbelow(chooser=S.chooser_for(recipe)) if S.uses_random(recipe) else contextlib.nullcontext()
+        with draws():
+            generate_data(str(d / "r.yml"), parent_application=QuietApp(StoppingCriteria("__REPS__", reps)),
+                          output_files=[str(jsonf), str(txtf), str(sqlf)], dburl=f"sqlite:///{db}",
+                          generate_cci_mapping_file=str(mapf))
         (d / "csv").mkdir()
-        generate_data(str(d / "r.yml"), parent_application=QuietApp(StoppingCriteria("__REPS__", reps)),
-                      output_format="csv", output_folder=str(d / "csv"))
+        with draws():
+            generate_data(str(d / "r.yml"), parent_application=QuietApp(StoppingCriteria("__REPS__", reps)),
+                          output_format="csv", output_folder=str(d / "csv"))
         ids = []
         for obj in json.loads(jsonf.read_text() or "[]"):
             ids.extend(obj.keys())
